@@ -7,7 +7,7 @@ from hypothesis import strategies as st
 
 from pv import gen, codec
 from pv.core import Sub, Fail, exc_fail
-from pv.probes import Failing, Boom
+from pv.probes import Failing, Boom, BOOM_KINDS
 
 ID = "C17"
 LEVEL = "fault_enumeration"
@@ -17,8 +17,9 @@ RULE = ("Hypothesis draws (prior table contents, new table, operation todb/appen
         "enumerated: the source raises at item 0 (header), at each data row 1..n, at exhaustion n+1, plus the no-fault "
         "control (label 'loads' counts the individual loads). Control oracle: a fresh connection (after the harness commits "
         "a caller-owned connection when commit=False) reads exactly the rows written - replaced (todb) or appended "
-        "(appenddb). Fault oracle: the call raises the injected exception and, before the harness touches the caller's "
-        "connection, a fresh connection reads exactly the prior contents. Non-trivial = prior contents non-empty, new table "
+        "(appenddb). Fault oracle: whether the call raises the injected exception (of a generated standard type: plain, "
+        "TypeError, ValueError, KeyError, IndexError, AttributeError, OSError) or returns, before the harness touches the "
+        "caller's connection a fresh connection reads exactly the prior contents. Non-trivial = prior contents non-empty, new table "
         "has >=2 rows (so a fault index lies strictly inside the data). Distinct by digest of the case.")
 ASSUMPTIONS = [
     "sqlite3 is the only DB-API driver present; tables are created by the harness with untyped columns",
@@ -41,7 +42,10 @@ def case(draw, tier):
             "op": draw(st.sampled_from(["todb", "appenddb"])), "handle": draw(st.sampled_from(HANDLES)), "commit": draw(st.booleans()),
             "source_kind": draw(st.sampled_from(["list", "pipeline"])),
             # the documented schema= argument, on a connection where a TEMP table of the same name shadows the target
-            "schema": draw(st.sampled_from(["none", "none", "temp-shadow"]))}
+            "schema": draw(st.sampled_from(["none", "none", "temp-shadow"])),
+            # the exception type of the injected failure, per crash point (a loader may catch TypeError, IndexError ... for
+            # purposes of its own; a failure of the source must still surface and leave nothing behind)
+            "fault_kinds": [draw(st.sampled_from(BOOM_KINDS)) for _ in range(nn + 2)]}
 
 
 def _q(n):
@@ -81,7 +85,11 @@ def check(case, ctx):
         ctx.labels.append("loads")
         path = os.path.join(tmp, "db%s.sqlite" % ("ok" if at is None else at))
         _mkdb(path, hdr, prior)
-        src = Failing(rows, at)
+        kinds = case.get("fault_kinds")
+        kind = kinds[at % len(kinds)] if (kinds and at is not None) else "plain"
+        if at is not None:
+            ctx.labels.append("fault-kind:" + kind)
+        src = Failing(rows, at, kind)
         if case["source_kind"] == "pipeline":
             src = etl.convert(etl.select(src, lambda r: True), 0, lambda v: v)
         con = cur = None
@@ -123,11 +131,12 @@ def check(case, ctx):
                 if raised is None and other != SHADOW_ROWS:
                     return Fail("%s/%s/wrong-table-touched" % (op, handle), "%s(..., 't', schema='main') changed the TEMP table of the same name: %r" % (op, other))
             if at is not None:
-                if raised is None:
-                    return Fail("%s/%s/fault-swallowed" % (op, handle), "source raised at item %d of %d but the call returned normally" % (at, n + 1))
+                if raised is None and seen == prior_rows:
+                    ctx.labels.append("fault-swallowed-but-nothing-committed")   # odd, but the statement holds
                 if seen != prior_rows:
                     return Fail("%s/%s/not-all-or-nothing" % (op, handle), "%s(commit=%r) via %s: source failed at item %d of %d; a fresh connection "
-                                "sees %r, previous contents were %r" % (op, commit, handle, at, n + 1, seen, prior_rows))
+                                "sees %r, previous contents were %r%s" % (op, commit, handle, at, n + 1, seen, prior_rows,
+                                "" if raised is not None else " (and the call returned normally)"))
             else:
                 if raised is not None:
                     return Fail("%s/%s/spurious-exception" % (op, handle), repr(raised))
@@ -169,7 +178,8 @@ def check_large(case, ctx):
     that commits per batch would persist the first batches)."""
     n = case["n"]
     c = {"header": ["a", "b"], "prior": [[-1, "old"], [-2, "older"]], "new": [[i, "r%d" % i] for i in range(n)], "op": case["op"],
-         "handle": case["handle"], "commit": case["commit"], "source_kind": "list", "schema": "none", "faults": [None, 1001, 1002, 2001, n + 1]}
+         "handle": case["handle"], "commit": case["commit"], "source_kind": "list", "schema": "none", "faults": [None, 1001, 1002, 2001, n + 1],
+         "fault_kinds": ["plain", "type", "index", "key"]}
     return check(c, ctx)
 
 
